@@ -203,6 +203,9 @@ def run_op(op):
     old_out, old_err = sys.stdout, sys.stderr
     sys.stdout = out
     sys.stderr = io.StringIO() if not os.environ.get("GSIM_DEBUG") else old_err
+    if op.get("trace_mem"):
+        import tracemalloc
+        tracemalloc.start()
     try:
         try:
             g.init()
@@ -233,6 +236,10 @@ def run_op(op):
                 records["reparse_exc"] = "%s: %s" % (type(e).__name__, str(e)[:200])
     finally:
         sys.stdout, sys.stderr = old_out, old_err
+        if op.get("trace_mem"):
+            # peak of the bytes allocated through Python's allocators during the run (deterministic, unlike RSS)
+            res["mem_peak"] = tracemalloc.get_traced_memory()[1]
+            tracemalloc.stop()
     res["files"] = dict(fs.files)
     res["dirs"] = sorted(fs.dirs)
     return finish()
